@@ -617,3 +617,159 @@ Fixpoint enc_json (t : json) : bytes :=
                               | (k, x) :: r => (enc_json_str k ++ [58] ++ enc_json x) :: go r
                               end) ms) ++ [125]
   end.
+
+(* ------------------------------------------------------------------------------------ *)
+(* multipart/form-data (internal/bodyprocessors/multipart.go)                            *)
+(* The loop of the body processor over the parts handed out by mime/multipart is         *)
+(* modelled as coded ([mp_collect]). mime/multipart + mime.ParseMediaType themselves are *)
+(* an oracle; [mp_parse] is a partial specification of them for well-formed bodies of the *)
+(* shape [mp_print] produces, validated by the correspondence run.                        *)
+(* ------------------------------------------------------------------------------------ *)
+
+(* a part as the processor sees it: FormName(), originFileName() ([] = a plain field), data *)
+Record mpart := mk_mpart { mp_name : bytes; mp_filename : bytes; mp_content : bytes }.
+
+Definition mp_is_file (p : mpart) : bool := negb (dc_is_empty (mp_filename p)).
+
+Record mp_vars := mk_mpv {
+  mv_post : cmap;            (* ARGS_POST *)
+  mv_files : cmap;           (* FILES: key "", value filename *)
+  mv_files_names : cmap;     (* FILES_NAMES: key "", value form name *)
+  mv_files_sizes : cmap;     (* FILES_SIZES: key filename, value size *)
+  mv_combined : nat;         (* FILES_COMBINED_SIZE: fields count too, as coded *)
+  mv_part_headers : cmap     (* MULTIPART_PART_HEADERS: key form name, value "Key: value" *)
+}.
+
+Definition dc_crlf : bytes := [13; 10].
+Definition mp_quote (s : bytes) : bytes :=
+  flat_map (fun c => if (c =? 92) || (c =? 34) then [92; c] else [c]) s.
+(* the value of the Content-Disposition header the printer writes *)
+Definition mp_disp (p : mpart) : bytes :=
+  str "form-data; name="%string ++ [34] ++ mp_quote (mp_name p) ++ [34] ++
+  (if mp_is_file p then str "; filename="%string ++ [34] ++ mp_quote (mp_filename p) ++ [34] else []).
+Definition mp_ctype : bytes := str "application/octet-stream"%string.
+(* the header lines of a part as textproto hands them out (canonical key, ": ", value) *)
+Definition mp_header_lines (p : mpart) : list bytes :=
+  (str "Content-Disposition: "%string ++ mp_disp p) ::
+  (if mp_is_file p then [str "Content-Type: "%string ++ mp_ctype] else []).
+
+Section MpFold.
+Variable fold : bytes -> bytes.
+Definition mp_step (v : mp_vars) (p : mpart) : mp_vars :=
+  let total := (mv_combined v + length (mp_content p))%nat in
+  let hdrs := fold_left (fun m h => cm_add fold m (mp_name p) h) (mp_header_lines p) (mv_part_headers v) in
+  if mp_is_file p then
+    mk_mpv (mv_post v) (cm_add fold (mv_files v) [] (mp_filename p))
+           (cm_add fold (mv_files_names v) [] (mp_name p))
+           (cm_set_index fold (mv_files_sizes v) (mp_filename p) 0 (itoa (N.of_nat (length (mp_content p)))))
+           total hdrs
+  else
+    mk_mpv (cm_add fold (mv_post v) (mp_name p) (mp_content p)) (mv_files v) (mv_files_names v)
+           (mv_files_sizes v) total hdrs.
+Definition mp_collect (parts : list mpart) : mp_vars :=
+  fold_left mp_step parts (mk_mpv [] [] [] [] 0%nat []).
+End MpFold.
+
+(* ---- the printer (what a client sends; mirrored in the harness) ---- *)
+Definition mp_delim (b : bytes) : bytes := [13; 10; 45; 45] ++ b.
+Definition mp_part_bytes (b : bytes) (p : mpart) : bytes :=
+  dc_crlf ++ str "Content-Disposition: "%string ++ mp_disp p ++
+  (if mp_is_file p then dc_crlf ++ str "Content-Type: "%string ++ mp_ctype else []) ++
+  dc_crlf ++ dc_crlf ++ mp_content p ++ mp_delim b.
+Definition mp_print (b : bytes) (parts : list mpart) : bytes :=
+  [45; 45] ++ b ++ flat_map (mp_part_bytes b) parts ++ [45; 45; 13; 10].
+
+(* ---- the partial specification of the parser ---- *)
+Fixpoint dc_strip (p s : bytes) : option bytes :=
+  match p with
+  | [] => Some s
+  | x :: p' => match s with
+               | y :: s' => if x =? y then dc_strip p' s' else None
+               | [] => None
+               end
+  end.
+
+(* mime.isTSpecial *)
+Definition mp_is_tspecial (c : byte) : bool :=
+  existsb (N.eqb c) [40; 41; 60; 62; 64; 44; 59; 58; 92; 34; 47; 91; 93; 63; 61].
+
+(* mime.consumeValue on a quoted string, after the opening quote: a backslash escapes only a
+   tspecial, CR / LF are refused; returns the value and what follows the closing quote *)
+Fixpoint mp_scan_quoted (s : bytes) : option (bytes * bytes) :=
+  match s with
+  | [] => None
+  | c :: r =>
+    if c =? 34 then Some ([], r)
+    else if c =? 92 then
+      match r with
+      | e :: r' =>
+        if mp_is_tspecial e
+        then match mp_scan_quoted r' with Some (v, t) => Some (e :: v, t) | None => None end
+        else match mp_scan_quoted r with Some (v, t) => Some (92 :: v, t) | None => None end
+      | [] => None
+      end
+    else if (c =? 13) || (c =? 10) then None
+    else match mp_scan_quoted r with Some (v, t) => Some (c :: v, t) | None => None end
+  end.
+
+(* first occurrence of the delimiter: (bytes before it, bytes after it) *)
+Fixpoint mp_find (d s : bytes) : option (bytes * bytes) :=
+  match s with
+  | [] => if is_prefix d [] then Some ([], []) else None
+  | x :: r =>
+    if is_prefix d s then Some ([], skipn (length d) s)
+    else match mp_find d r with Some (a, t) => Some (x :: a, t) | None => None end
+  end.
+
+Definition mp_parse_part (d s : bytes) : option (mpart * bytes) :=
+  match dc_strip (dc_crlf ++ str "Content-Disposition: form-data; name="%string ++ [34]) s with
+  | None => None
+  | Some s2 =>
+    match mp_scan_quoted s2 with
+    | None => None
+    | Some (name, s3) =>
+      match dc_strip (str "; filename="%string ++ [34]) s3 with
+      | Some s4 =>
+        match mp_scan_quoted s4 with
+        | None => None
+        | Some (fn, s5) =>
+          match dc_strip (dc_crlf ++ str "Content-Type: "%string ++ mp_ctype ++ dc_crlf ++ dc_crlf) s5 with
+          | None => None
+          | Some s6 =>
+            match mp_find d s6 with
+            | Some (content, rest) => Some (mk_mpart name fn content, rest)
+            | None => None
+            end
+          end
+        end
+      | None =>
+        match dc_strip (dc_crlf ++ dc_crlf) s3 with
+        | None => None
+        | Some s6 =>
+          match mp_find d s6 with
+          | Some (content, rest) => Some (mk_mpart name [] content, rest)
+          | None => None
+          end
+        end
+      end
+    end
+  end.
+
+Fixpoint mp_parse_parts (fuel : nat) (d s : bytes) : option (list mpart) :=
+  match fuel with
+  | O => None
+  | S f =>
+    if bytes_eqb s [45; 45; 13; 10] then Some []
+    else match mp_parse_part d s with
+         | Some (p, rest) =>
+           match mp_parse_parts f d rest with Some l => Some (p :: l) | None => None end
+         | None => None
+         end
+  end.
+
+Definition mp_parse (b body : bytes) : option (list mpart) :=
+  match dc_strip ([45; 45] ++ b) body with
+  | Some s => mp_parse_parts (S (length body)) (mp_delim b) s
+  | None => None
+  end.
+
